@@ -8,7 +8,8 @@ import re
 from ..core import Checker, Rule, attr_calls, callee_is, calls_in, kwarg, resolved_calls, short
 from ..interp import Pins, find_nodes, unparse
 from ..model import AnalysisError
-from .util import ancestors, effect_table, enclosing_loop, enclosing_stmt, enum_members, every_iteration_reaches, fmt, inline_displays, is_const, parent, returns_of, same, self_attr_for_param, single_def
+from ..nform import canon_expr
+from .util import ancestors, effect_table, enclosing_loop, enclosing_stmt, enum_members, every_iteration_reaches, fmt, inline_displays, is_const, parent, returns_of, same, self_attr_for_param, scan_parts, single_def, contributions
 
 P = ("C13", "C01", "C06")
 PG = ("C13", "C02", "C01")
@@ -200,21 +201,18 @@ def r_get_var(ck: Checker) -> None:
             ck.guard("G1 weight -V", func, ret, f"{m}.weight.ast_type == ASTType.UnaryOperation and {m}.weight.operator_type == UnaryOperator.Minus and {m}.weight.argument.ast_type == ASTType.Variable", "")
         else:
             ck.guard("G1 weight V", func, ret, f"{m}.weight.ast_type == ASTType.Variable", "")
-    ext = [c for c in attr_calls(func, "extend") if unparse(c.func.value) == "unsafe"]  # type: ignore[attr-defined]
-    ck.need(len(ext) == 1, "unsafe objectives are collected at one site")
-    site = ext[0]
-    loop = enclosing_loop(func, site)
-    ck.need(loop is not None and unparse(loop.iter) == "self.objectives.items()", "loop over all objectives of the program")
-    terms_, objective = [unparse(e) for e in loop.target.elts]  # type: ignore[union-attr]
-    comp = unparse(site.args[0]).replace(" ", "")
-    comp_full = unparse(site.args[0])
-    ck.add("only the statement itself is exempt", same(comp_full, f"[x for x in {objective} if x != {m}]"), func, site, f"collected: `{comp}`",
+    contrib = contributions(func, "unsafe")
+    ck.need(len(contrib) == 1, "unsafe objectives are collected at one site")
+    site, comp_full = contrib[0]
+    parts = scan_parts(comp_full)
+    ck.need(parts is not None and len(parts["gens"]) == 2 and "," in parts["gens"][0]["target"], "unsafe objectives: scan over (tuple, objectives) entries and their objectives")  # type: ignore[index,arg-type]
+    g0, g1 = parts["gens"]  # type: ignore[index,misc]
+    terms_, objective = [t.strip() for t in g0["target"].strip("()").split(",")]
+    ck.add("every objective of the program is compared", g0["iter"] == "self.objectives.items()", func, site, f"scan over `{g0['iter']}`", "")
+    ck.add("only the statement itself is exempt", g1["iter"] == objective and parts["elt"] == g1["target"] and [canon_expr(x) for x in g1["ifs"]] == [canon_expr(f"{g1['target']} != {m}")], func, site, f"collected: `{comp_full}`",  # type: ignore[index]
            "another objective element with the syntactically identical tuple (same key) must still block the rewrite: '#minimize{L,D:shift(D,L); L,D:penalty(D,L)}'")
     want = f"potentially_unifying_sequence({terms_}, [{m}.weight, {m}.priority, *{m}.terms])"
-    ck.guard("compared with (weight, priority, *terms) of this statement", func, site, want, "")
-    pins = Pins.of(facts={want: True})
-    ok, n = every_iteration_reaches(ck, func, loop, site, pins)  # type: ignore[arg-type]
-    ck.add("every potentially unifying objective is collected", ok and n > 0, func, site, f"under a positive unification test every iteration collects: {ok}", "")
+    ck.add("compared with (weight, priority, *terms) of this statement; every potentially unifying objective is collected", [canon_expr(x) for x in g0["ifs"]] == [canon_expr(want)], func, site, f"entry filter {g0['ifs']}; expected `{want}`", "")
     # objectives registry: every Minimize of the program
     co = ck.func(f"{CLS}._collect_objectives")
     itc = ck.interp(co)
@@ -291,17 +289,23 @@ def _template(ck: Checker, func_name: str, which: str) -> None:
 
     # the raw group arguments may contain `_`: fine inside the atoms of the condition, unsafe inside the tuple
     raws = set()
+    defining: list[ast.AST] = []  # the comprehension, or the loop it abbreviates, that builds the anonymous-free list
     for n in nones:
-        comp = next((a for a in ancestors(func, n) if isinstance(a, ast.ListComp)), None)
-        if comp is not None and isinstance(comp.generators[0].iter, ast.Name):
-            raws.add(comp.generators[0].iter.id)
+        comp = next((a for a in ancestors(func, n) if isinstance(a, (ast.ListComp, ast.For))), None)
+        src = comp.generators[0].iter if isinstance(comp, ast.ListComp) else (comp.iter if comp is not None else None)
+        if isinstance(src, ast.Name):
+            raws.add(src.id)
+            defining.append(comp)  # type: ignore[arg-type]
     ck.need(len(raws) == 1, f"{func_name}: the anonymous-free argument list is derived from the raw group arguments")
     raw = next(iter(raws))
     uses = 0
     for nm in find_nodes(func.node, lambda x: isinstance(x, ast.Name) and x.id == raw and isinstance(x.ctx, ast.Load)):
         where = None
+        up = parent(func, nm)
+        if isinstance(up, ast.Attribute) and up.attr in ("append", "add", "extend") and up.value is nm:
+            continue  # the list being filled: its own definition
         for anc in ancestors(func, nm):
-            if isinstance(anc, ast.ListComp) and any(anc is a for n in nones for a in ancestors(func, n)):
+            if any(anc is d for d in defining):
                 where = "definition"
                 break
             if isinstance(anc, ast.Call):
